@@ -68,6 +68,9 @@ def dedupSorted : List Str → List Str
 /-- `{str(x) for x in vals}` (canonical representative: ascending, duplicate free) -/
 def strSet (vals : List PyVal) : List Str := dedupSorted (sortStrs (vals.map pyStr))
 
+/-- `set.union(*sets)` of sets of str (canonical representative) -/
+def strUnion (sets : List (List Str)) : List Str := dedupSorted (sortStrs sets.flatten)
+
 /-- `_import_qualifiers_from_list` (`None` and `{}` both give `{}`) -/
 def importQuals (q : Option RawQuals) : Quals :=
   match q with
@@ -314,7 +317,7 @@ def FeatArgs.bounds (f : FeatArgs) : Option Int × Option Int := (f.starts.head?
 def fcDigestArgs (c : FcArgs) (cs : Int) : Option (List PyVal) :=
   (spanOf (c.features.map FeatArgs.bounds)).map fun sp =>
     [spanVal sp.1 sp.2 cs, ofOptStr c.name, ofOptStr c.id, ofOptStr c.ctype,
-     .set ((c.features.flatMap (·.featureTypes)).map .str), ofOptStr c.locusTag, ofOptStr c.sequenceName,
+     .set ((strUnion (c.features.map (·.featureTypes))).map .str), ofOptStr c.locusTag, ofOptStr c.sequenceName,
      qualsVal c.quals, .set (c.features.map fun f => .uuid (featGuid md5 f))]
 
 /-- gene/variants.py:378-388 -/
